@@ -102,7 +102,7 @@ var externalGlobals = map[string]func(i *interpreter) value{
 	"encoding/base64.StdEncoding":    func(i *interpreter) value { return native{base64.StdEncoding} },
 	"encoding/base64.RawStdEncoding": func(i *interpreter) value { return native{base64.RawStdEncoding} },
 	"crypto/rand.Reader":             func(i *interpreter) value { return iface{t: nativeAnyT, v: native{randReaderTag{}}} },
-	"net/http.ErrNotMultipart":       func(i *interpreter) value { return mkNativeErr(http.ErrNotMultipart) },
+	"net/http.ErrNotMultipart":       func(i *interpreter) value { return native{http.ErrNotMultipart} },
 	"net/http.ErrMissingFile":        func(i *interpreter) value { return mkNativeErr(http.ErrMissingFile) },
 	"net/http.DefaultClient":         func(i *interpreter) value { return native{http.DefaultClient} },
 }
